@@ -17,6 +17,10 @@ Clauses (names used in violations) and the sentence of the statement that licens
   array-built, rest-array-built   the array can be built for every in-domain part / option set
   inverse-*, score-built-from-array, array-of-rebuilt-score   note_array_to_score(a).note_array() returns the same
                          onsets, durations and pitches
+
+Edit spaces (part-edit1, part-edit2, score-edit): the same clauses on ONE Part / Score object that is queried, edited
+through the public API (signatures, measures, notes, rests, quarter duration; alphabet in mc/c05_edit.py) and queried
+again with the same options - every array must be the table of the score as it is when the array is taken.
 """
 from fractions import Fraction as F
 from itertools import product
@@ -24,12 +28,14 @@ from itertools import product
 from mc.core import CaseResult, Space, run_check, block_of, innermost_partitura_frame, exc_text
 from mc import c05_gen as G
 from mc import c05_ref as R
+from mc import c05_edit as E
 
 PID = "C05"
 RULE = (
     "cases are enumerated exhaustively per named sub-space (frame x events x option sets; score structures x "
     "division tuples x contents; note arrays over small onset/duration/pitch alphabets); a case is distinct by "
-    "construction; non-trivial = the array under test has at least one row"
+    "construction; non-trivial = the array under test has at least one row; edit spaces: frame x content x every "
+    "sequence of 1-2 edits of the alphabet, the arrays are taken before the first and after every edit"
 )
 ASSUMPTIONS = [
     "parts are built through the public API (Part, add, set_quarter_duration, tie links); the first time point is 0",
@@ -55,6 +61,13 @@ ASSUMPTIONS = [
     "ts_mus_beats is the number given to use_musical_beat or the default (6->2, 9->3, 12->4)",
     "notes without id, unpitched notes, tie chains with gaps, grace notes inside tie chains and two signatures at one "
     "time are not generated",
+    "edit spaces (part-edit1, part-edit2, score-edit): 'the score' is the Part as it is when the array is taken, so after "
+    "an edit through Part.add / Part.remove / Part.set_quarter_duration the arrays equal the table of the edited score; "
+    "replacing a signature or re-barring = remove + add between two queries; edits that lead outside the preconditions "
+    "above are not generated (first time point 0, two signatures at one time, a time signature that does not start at the "
+    "first time point), nor parts whose first measure is shorter than its signature while the length of a beat in "
+    "divisions changes during the first beat after time 0 (Part.measure_map takes the position of that beat for the "
+    "divisions per beat of the first measure: see proposed_fixes/C05-s-subbeat-pickup.diff)",
 ]
 CHUNK = 40
 
@@ -398,31 +411,13 @@ def eval_part(case):
 # score level
 
 
-def eval_score(case):
-    from mc import ir
-    import partitura.score as S
+def eval_score_arrays(res, sc, items, st, configs, ctx):
+    """note arrays of the score / group / list `sc` built from `items`, for every (unique ids, flags) in
+    `configs`, compared with the union of the part tables; returns (rows, lcm)"""
     import partitura.utils.music as M
 
-    res = CaseResult(states=1, transitions=0, traces=1)
-    items = G.score_items(case)
-    ctx = "q=%s contents=%s meter=%s struct=%s" % (case["q"], case["c"], case["meter"], case["struct"])
-    st = case["struct"]
-
-    def build():
-        sc = ir.build_score({"parts": items})
-        return sc
-
-    ok, sc = call(res, "score-built", build, ctx)
-    if not ok:
-        res.outcome = "build-failed"
-        return res
     cfg_all = list(G.NOTE_FLAGS)
-    # all 2^7 option subsets are enumerated on the representative scores of `score-flags`; every other
-    # score gets: all options with and without unique ids, no option, and one rotating single option
-    rot = G.NOTE_FLAGS[(sum(case["q"]) + sum((i + 1) * c for i, c in enumerate(case["c"]))) % len(G.NOTE_FLAGS)]
-    configs = [(True, cfg_all), (False, cfg_all), (True, []), (False, [rot])]
-    if case.get("flags") is not None:
-        configs = [(case["unique"], case["flags"])]
+    L = 1
     nrows = 0
     for unique, fl in configs:
         kw = kwargs_of(fl)
@@ -464,6 +459,35 @@ def eval_score(case):
             if not ok:
                 continue
             check_list_array(res, arr, rows, fl, "note", where, c2)
+    return nrows, L
+
+
+def eval_score(case):
+    from mc import ir
+    import partitura.score as S
+    import partitura.utils.music as M
+
+    res = CaseResult(states=1, transitions=0, traces=1)
+    items = G.score_items(case)
+    ctx = "q=%s contents=%s meter=%s struct=%s" % (case["q"], case["c"], case["meter"], case["struct"])
+    st = case["struct"]
+
+    def build():
+        sc = ir.build_score({"parts": items})
+        return sc
+
+    ok, sc = call(res, "score-built", build, ctx)
+    if not ok:
+        res.outcome = "build-failed"
+        return res
+    cfg_all = list(G.NOTE_FLAGS)
+    # all 2^7 option subsets are enumerated on the representative scores of `score-flags`; every other
+    # score gets: all options with and without unique ids, no option, and one rotating single option
+    rot = G.NOTE_FLAGS[(sum(case["q"]) + sum((i + 1) * c for i, c in enumerate(case["c"]))) % len(G.NOTE_FLAGS)]
+    configs = [(True, cfg_all), (False, cfg_all), (True, []), (False, [rot])]
+    if case.get("flags") is not None:
+        configs = [(case["unique"], case["flags"])]
+    nrows, L = eval_score_arrays(res, sc, items, st, configs, ctx)
     res.outcome = "parts=%d rows=%d lcm=%d" % (len(case["q"]), nrows, L)
     res.nontrivial = nrows > 0
     return res
@@ -509,6 +533,96 @@ def eval_restlist(case):
             if ok:
                 check_list_array(res, arr, rows, fl, "rest", where, c2, extra)
     res.outcome = "restlist parts=%d rows=%d" % (len(case["q"]), nrows)
+    res.nontrivial = nrows > 0
+    return res
+
+
+# ---------------------------------------------------------------------------------------------
+# edit-then-query-again: the arrays state what the score says *now*
+
+
+def query_part(res, part, spec, step, rot, ctx):
+    """the note and rest arrays of `part` (all options, plus one rotating single option through one of the
+    function routes), compared with the table of `spec`; the same requests are made at every step"""
+    ref = R.PartRef(spec)
+    has_measures = bool(ref.measures)
+    single = len(ref.divs) == 1
+
+    def usable(f):
+        return not (f == "include_metrical_position" and not has_measures) and not (
+            f == "include_divs_per_quarter" and not single)
+
+    c2 = "%s step=%d" % (ctx, step)
+    eval_part_arrays(res, part, ref, None, [[f for f in G.NOTE_FLAGS if usable(f)]], c2, via="method")
+    eval_rest_arrays(res, part, ref, None, [[f for f in G.REST_FLAGS if usable(f)]], c2, via="method")
+    one = G.NOTE_FLAGS[rot % len(G.NOTE_FLAGS)]
+    if one == "include_divs_per_quarter" or not usable(one):
+        one = "include_key_signature"
+    if rot % 3 == 2:
+        eval_rest_arrays(res, part, ref, None, [[one]], c2, via="ensure")
+    else:
+        eval_part_arrays(res, part, ref, None, [[one]], c2, via="function" if rot % 3 else "ensure")
+    return ref
+
+
+def eval_edit(case):
+    from mc import ir
+
+    res = CaseResult(states=1, transitions=0, traces=1)
+    frame = G.get_frame(case["frame"])
+    events = E.content_events(frame, case["content"])
+    allev = G.rest_events(frame) + G.note_events(frame)
+    spec = G.build_spec(frame, events, G.default_deco(events, allev))
+    edits = case["edits"]
+    ctx = "frame=%s content=%s edits=%s" % (case["frame"], case["content"], edits)
+    ok, part = call(res, "part-built", lambda: ir.build_part(spec), ctx)
+    if not ok:
+        res.outcome = "build-failed"
+        return res
+    rot = sum(len(str(e)) for e in edits) + len(frame["grid"])
+    ref = query_part(res, part, spec, 0, rot, ctx)
+    for k, e in enumerate(edits):
+        ok, n = call(res, "part-built", lambda: E.apply_edit_real(part, e), ctx + " (edit %d)" % k)
+        if not ok:
+            res.outcome = "edit-failed"
+            return res
+        res.transitions += n
+        spec = E.apply_edit_spec(spec, e)
+        res.states += 1
+        ref = query_part(res, part, spec, k + 1, rot, ctx)
+    res.outcome = "edits=%s %s" % ("".join(e[0] for e in edits), describe(spec, ref))
+    res.nontrivial = bool(ref.notes or ref.rests)
+    return res
+
+
+def eval_score_edit(case):
+    from mc import ir
+
+    res = CaseResult(states=1, transitions=0, traces=1)
+    items = G.score_items(case)
+    st = case["struct"]
+    edits = case["edits"]
+    ctx = "q=%s contents=%s meter=%s struct=%s part=%d edits=%s" % (case["q"], case["c"], case["meter"], st, case["p"], edits)
+    ok, sc = call(res, "score-built", lambda: ir.build_score({"parts": items}), ctx)
+    if not ok:
+        res.outcome = "build-failed"
+        return res
+    cfg_all = list(G.NOTE_FLAGS)
+    configs = [(True, cfg_all), (False, ["include_key_signature", "include_time_signature", "include_metrical_position"])]
+    nrows, L = eval_score_arrays(res, sc, items, st, configs, ctx + " step=0")
+    target = R.flat_parts(items)[case["p"]]
+    part = sc.parts[case["p"]]
+    for k, e in enumerate(edits):
+        ok, n = call(res, "score-built", lambda: E.apply_edit_real(part, e), ctx + " (edit %d)" % k)
+        if not ok:
+            res.outcome = "edit-failed"
+            return res
+        res.transitions += n
+        new = E.apply_edit_spec(target, e)
+        target["divs"], target["objs"] = new["divs"], new["objs"]
+        res.states += 1
+        nrows, L = eval_score_arrays(res, sc, items, st, configs, ctx + " step=%d" % (k + 1))
+    res.outcome = "score-edit %s rows=%d lcm=%d" % ("".join(e[0] for e in edits), nrows, L)
     res.nontrivial = nrows > 0
     return res
 
@@ -592,6 +706,10 @@ def eval_inverse(case):
 
 def eval_case(case):
     sp = case["sp"]
+    if sp == "score-edit":
+        return eval_score_edit(case)
+    if sp.startswith("part-edit"):
+        return eval_edit(case)
     if sp.startswith("score"):
         return eval_score(case)
     if sp == "rest-list":
@@ -729,6 +847,64 @@ def gen_rest_flags():
             yield dict(sp="rest-flags", frame=fk, ev=ev, flags=fl)
 
 
+EDIT_CORE_DIVPLANS = [["c", 2], ["b", 2, 3], ["m", 4, 2]]
+EDIT_CONTENTS = ["dense", "sparse"]
+B_EDIT1 = 12
+B_EDIT2 = 96
+B_SCORE_EDIT = 8
+
+
+def _edit_base(fk, content):
+    fr = G.get_frame(fk)
+    ev = E.content_events(fr, content)
+    return fr, G.build_spec(fr, ev, G.default_deco(ev, G.rest_events(fr) + G.note_events(fr)))
+
+
+def gen_part_edit1(block=None):
+    """one edit; block=None: every frame; else the frames of the core division plans completely plus the
+    hash block `block` of the other frames"""
+    for fk in G.frame_keys():
+        core = fk[1] in EDIT_CORE_DIVPLANS
+        for content in EDIT_CONTENTS:
+            fr, spec = _edit_base(fk, content)
+            for e in E.enumerate_edits(spec, fr["grid"], 0):
+                c = dict(sp="part-edit1", frame=fk, content=content, edits=[e])
+                if block is None or core or block_of(c, B_EDIT1) == block:
+                    yield c
+
+
+def gen_part_edit2(block=None):
+    """two edits on the frames of the core division plans; the block is taken over (frame, content, first
+    edit): every second edit follows a selected first edit"""
+    for fk in G.frame_keys():
+        if fk[1] not in EDIT_CORE_DIVPLANS:
+            continue
+        for content in EDIT_CONTENTS:
+            fr, spec = _edit_base(fk, content)
+            for e1 in E.enumerate_edits(spec, fr["grid"], 0):
+                if block is not None and block_of(dict(frame=fk, content=content, first=e1), B_EDIT2) != block:
+                    continue
+                spec1 = E.apply_edit_spec(spec, e1)
+                for e2 in E.enumerate_edits(spec1, fr["grid"], 1):
+                    yield dict(sp="part-edit2", frame=fk, content=content, edits=[e1, e2])
+
+
+def gen_score_edit(block=None):
+    for q in ([2, 3], [4, 6], [2, 2]):
+        for c in product((2, 3, 4), repeat=2):
+            for meter in ("34", "34pk"):
+                pk = 1 if meter == "34pk" else 0
+                for st in ("score", "list", "partgroup"):
+                    base = dict(q=q, c=list(c), meter=meter, struct=st)
+                    flat = R.flat_parts(G.score_items(base))
+                    for p in (0, 1):
+                        grid = [b * q[p] for b in [0] + ([1] if pk else []) + [pk + 3, pk + 6]]
+                        for e in E.enumerate_edits(flat[p], grid, 0):
+                            cs = dict(base, sp="score-edit", p=p, edits=[e])
+                            if block is None or block_of(cs, B_SCORE_EDIT) == block:
+                                yield cs
+
+
 def gen_score1():
     # one part: the most common use (ids are never prefixed)
     for q in (1, 2, 3, 4, 6):
@@ -837,6 +1013,34 @@ def spaces(tier, seed):
     else:
         out.append(Space("rest-pairs", lambda: gen_rest_pairs(None), True, "ordered pairs rest x (rest | one-cell note) on those frames"))
     out.append(Space("rest-flags", gen_rest_flags, True, "all 2^6 subsets of the rest options on 5 representative parts"))
+    eb = ("on one Part object: query (note and rest array with all options + one rotating single option through "
+          "note_array_from_part / ensure_notearray / ensure_rest_array), edit, same queries again, each compared with the "
+          "table of the score as it is then; contents {dense: a one-cell note and rest on every grid cell, sparse: tie chain + "
+          "grace + rest + note}; edits: add / remove / replace a key signature at every grid point, a time signature at every "
+          "measure start (every grid point without measures), split a measure at every inner grid point, merge adjacent "
+          "measures, add a note on the first and the last cell / a rest / a grace note, remove the first and the last untied note "
+          "and rest, replace a constant "
+          "quarter duration by 2x and 3x (edits leaving the generator preconditions are skipped)")
+    core = "division plans %s" % (EDIT_CORE_DIVPLANS,)
+    if tier == "quick":
+        b = seed % B_EDIT1
+        out.append(Space("part-edit1", lambda b=b: gen_part_edit1(b), True,
+                         eb + "; every single edit on every frame of " + core + " + block %d of %d of the other frames" % (b, B_EDIT1)))
+        b = seed % B_EDIT2
+        out.append(Space("part-edit2", lambda b=b: gen_part_edit2(b), True,
+                         "two edits in sequence (three query rounds), frames of " + core + ": every second edit after the first edits "
+                         "of block %d of %d (hash of frame, content, first edit)" % (b, B_EDIT2)))
+        b = seed % B_SCORE_EDIT
+        out.append(Space("score-edit", lambda b=b: gen_score_edit(b), True,
+                         "Score / list / PartGroup of 2 parts (divisions (2,3), (4,6), (2,2) x contents {2,3,4}^2 x pickup): query, one edit "
+                         "of the same alphabet (grid = barlines) in either part, query again: block %d of %d" % (b, B_SCORE_EDIT)))
+    else:
+        out.append(Space("part-edit1", lambda: gen_part_edit1(None), True, eb + "; every single edit on every frame"))
+        out.append(Space("part-edit2", lambda: gen_part_edit2(None), True,
+                         "every sequence of two edits (three query rounds) on the frames of " + core))
+        out.append(Space("score-edit", lambda: gen_score_edit(None), True,
+                         "Score / list / PartGroup of 2 parts (divisions (2,3), (4,6), (2,2) x contents {2,3,4}^2 x pickup): query, one edit "
+                         "of the same alphabet (grid = barlines) in either part, query again"))
     out.append(Space("score1", gen_score1, True, "1 part as Score / list / Score of a group / PartGroup: divisions {1,2,3,4,6} x contents x pickup"))
     out.append(Space("score2", gen_score2, True,
                      "2 parts: divisions %s x contents^2 (%d contents) x {no pickup, pickup} x structures %s; "
